@@ -5,7 +5,7 @@
    through MultiMarker.of / MarkerUnion.of.  Exclusion and reduction by a Python range are judged on the
    implementation by the oracle. *)
 From Coq Require Import List Bool NArith String.
-From PC Require Import Base.Result Model.Generic Model.Marker Model.MarkerAlg Proofs.MarkerProofs Proofs.MarkerAlgProofs Proofs.StringClass.
+From PC Require Import Base.Result Model.Generic Model.Marker Model.MarkerAlg Proofs.MarkerProofs Proofs.MarkerAlgProofs Proofs.StringClass Proofs.ExtraClass.
 Import ListNotations.
 
 Theorem C17_only_weakens : forall E names m, beval E m = true -> beval E (only_raw names m) = true.
@@ -28,3 +28,8 @@ Theorem C17_only_string_markers : forall E fuel st names m r, G (SR E) m -> only
   (beval E m = true -> beval E r = true) /\ G (SR E) r.
 Proof. exact string_only. Qed.
 Print Assumptions C17_only_string_markers.
+
+Theorem C17_only_string_extra_markers : forall E extras, e_extras E = Some extras -> forall fuel st names m r, G (BR E) m ->
+  only fuel st names m = Ok r -> (beval E m = true -> beval E r = true) /\ G (BR E) r.
+Proof. exact both_only. Qed.
+Print Assumptions C17_only_string_extra_markers.
